@@ -85,6 +85,8 @@ CALLBACKS = {
         _named(lambda a, b: True, "always"),
         # not an equivalence (not transitive): a tolerance comparer
         _named(lambda a, b: type(a) is int and type(b) is int and abs(a - b) <= 1, "near"),
+        # not symmetric: tells which argument is which
+        _named(lambda a, b: type(a) is int and type(b) is int and a <= b, "le"),
     ],
     "accumulator": [
         _named(lambda acc, x: (acc, x), "pair"),
@@ -137,6 +139,14 @@ class Recorder:
         self.steps.append([])
 
 
+def exc_key(e):
+    """exceptions raised by the Python runtime on element operations (None + 1, 'a' < 1, ...) compare by type only:
+    their messages name the operator the particular implementation happened to use"""
+    if type(e) in (TypeError, ValueError, ZeroDivisionError, AttributeError, KeyError, IndexError):
+        return (type(e).__name__, ())
+    return (type(e).__name__, e.args)
+
+
 def truncate(steps):
     """C01: nothing is observable after the first terminal"""
     out, done = [], False
@@ -147,7 +157,7 @@ def truncate(steps):
                 break
             if ev[0] == "E" and isinstance(ev[1], Exception) and not isinstance(ev[1], Boom):
                 # library exceptions compare by type and arguments, not identity
-                ev = ("E", (type(ev[1]).__name__, ev[1].args))
+                ev = ("E", exc_key(ev[1]))
             cur.append(ev)
             if ev[0] in ("E", "C"):
                 done = True
@@ -427,7 +437,7 @@ def validate_spec(c, max_len=4, values=None):
             elif isinstance(term, tuple):
                 e = term[1]
                 if isinstance(e, Exception) and not isinstance(e, Boom):
-                    e = (type(e).__name__, e.args)
+                    e = exc_key(e)
                 exp.append(("E", e))
             if got != exp:
                 mism += 1
@@ -567,7 +577,7 @@ def main(argv):
                             if mode == "resub" else "ONE operator object applied to two independent sources leaks state between them.")
                     with open(opts["replay_path"], "w") as fh:
                         fh.write(SCOPE_REPLAY_TEMPLATE.format(prop=opts.get("prop", "?"), oid=opts.get("oid", "?"), what=what,
-                                                              verif=VERIF, mod=modname, name=name, case=json.dumps(f["case"]),
+                                                              verif=VERIF, mod=modname, name=name, case="__import__('json').loads(%r)" % json.dumps(f["case"]),
                                                               fn="run_real_resub" if mode == "resub" else "run_real_reuse", mode=mode))
                     res["replay"] = opts["replay_path"]
     elif mode == "validate":
@@ -583,7 +593,7 @@ def main(argv):
             os.makedirs(os.path.dirname(path), exist_ok=True)
             with open(path, "w") as fh:
                 fh.write(REPLAY_TEMPLATE.format(prop=opts.get("prop", "?"), oid=opts.get("oid", "?"), verif=VERIF,
-                                                mod=modname, name=name, case=json.dumps(res["found"][0]["case"])))
+                                                mod=modname, name=name, case="__import__('json').loads(%r)" % json.dumps(res["found"][0]["case"])))
             res["replay"] = path
     else:
         raise SystemExit("mode?")
